@@ -167,7 +167,19 @@ pub fn gen_case(s: &mut Source, cfg: &FdCfg) -> FdCase {
             }
             _ => {
                 let a = var(s);
-                let b = operand(s);
+                // now and then a finite-domain variable meets a term that is not an integer at
+                // all ([] , a list, an improper list, a bool, a compound): the goal must fail
+                let b = if s.flag(20) {
+                    match s.below(5) {
+                        0 => Term::Nil,
+                        1 => Term::list(vec![Term::Int(1), Term::Int(2)]),
+                        2 => Term::improper(vec![Term::Int(1)], Term::Int(2)),
+                        3 => Term::Bool(true),
+                        _ => Term::Cmp(Kind::Pair, vec![Term::Int(1), Term::Int(2)]),
+                    }
+                } else {
+                    operand(s)
+                };
                 Goal::Eq(a, b)
             }
         };
@@ -217,6 +229,13 @@ pub fn gen_case(s: &mut Source, cfg: &FdCfg) -> FdCase {
         let perm = s.permutation(goals.len());
         goals = perm.into_iter().map(|i| goals[i].clone()).collect();
     }
+    // `x == <list>` is only judged when x already has its domain: a domain posted on a variable
+    // that is bound to a list applies to the list's elements (documented behaviour of infd on
+    // lists), which the integer brute-force model does not cover. Such equations go last.
+    let non_int = |g: &Goal| matches!(g, Goal::Eq(_, b) if !matches!(b, Term::Int(_) | Term::Var(_)));
+    let (last, mut first): (Vec<Goal>, Vec<Goal>) = goals.into_iter().partition(|g| non_int(g));
+    first.extend(last);
+    let goals = first;
     let (shape, shape_term) = if cfg.shapes {
         match s.weighted(&[5, 2, 2]) {
             0 => (QueryShape::Plain, None),
